@@ -261,6 +261,17 @@ var limitShapes = []limitShape{
 	{"dict-put-growth", "/d 1 dict def 0 1 200000 { d exch dup put } for d length 0 eq", []string{"", "dictfull", "limitcheck"}, true, ""},
 	{"string-loop-64k", "{ 65535 string } loop", []string{"stackoverflow", "limitcheck", "VMerror"}, true, ""},
 	{"array-loop-64k", "{ 60000 array } loop", []string{"stackoverflow", "limitcheck", "VMerror"}, true, ""},
+	{"loop-push-bound-body", "{ 1 } bind loop", []string{"stackoverflow"}, false, ""},
+	{"for-push-bound-body", "0 1 1000000 { dup } bind for", []string{"stackoverflow"}, false, ""},
+	{"repeat-push-bound-body", "1000000 { 1 } bind repeat", []string{"stackoverflow"}, false, ""},
+	{"forall-push-bound-body", "60000 string { dup } bind forall", []string{"stackoverflow"}, false, ""},
+	{"loop-count-bound-body", "{ count } bind loop", []string{"stackoverflow"}, false, ""},
+	{"handler-typecheck-pushing-loop", "errordict /typecheck { { 1 } loop } put 1 begin", []string{"stackoverflow"}, false, ""},
+	{"handler-undefined-pushing-loop", "errordict /undefined { { 1 } loop } put nosuchname", []string{"stackoverflow", "undefined"}, false, ""},
+	{"handler-stackunderflow-pushing-loop", "errordict /stackunderflow { { mark } loop } put pop", []string{"stackoverflow"}, false, ""},
+	{"handler-rangecheck-pushing-for", "errordict /rangecheck { 0 1 1000000 { } for } put -1 array", []string{"stackoverflow"}, false, ""},
+	{"handler-begin-loop", "errordict /typecheck { { currentdict begin } loop } put 1 begin", []string{"dictstackoverflow"}, false, ""},
+	{"handler-recursion", "/f { f 1 } def errordict /typecheck { f } put 1 begin", []string{"execstackoverflow"}, false, ""},
 	{"type1.Read-runaway-loop", "%!\n{ } loop", []string{"budget"}, false, "type1.Read"},
 	{"type1.Read-runaway-recursion", "%!\n/f { f 1 } def f", []string{"execstackoverflow"}, false, "type1.Read"},
 	{"type1.Read-runaway-push", "%!\n{ 1 } loop", []string{"stackoverflow"}, false, "type1.Read"},
@@ -327,6 +338,9 @@ func C11() *sim.Check {
 		"0 1 5 { 0 1 5 { add } for } for",
 		"errordict /undefined { pop } put a b c 1 2 3",
 		"currentfile eexec ",
+		"0 1 20 { pop } bind for 5 { 1 } bind repeat pop pop pop pop pop [ 1 2 3 ] { pop } bind forall { exit } bind loop 7",
+		"0 1 9 { dup } bind for count { pop } bind repeat (abc) { pop } bind forall",
+		"errordict /typecheck { pop pop 1 1 add } put 1 (a) add 2 (b) add { 1 (c) add pop } bind exec",
 	}
 	fixedB := &sim.Batch{Name: "dispatch", Quick: len(fixed), Thorough: len(fixed), Enumerated: true}
 	fixedB.Run = func(c *sim.RunCtx) *sim.Outcome {
